@@ -156,6 +156,15 @@ def chk_wire_seq(frames) -> Result:
     plan = {"t": "wseq", "frames": frames}
     r = Result(nontrivial=len(frames) > 1, classes=["wire-sequence"], key=[9, frames])
     proto, tr, up = make_host()
+    queued = []  # the very objects handed to write(): a transport may keep them and send them later
+    _w = tr.write
+
+    def write(data):
+        queued.append(data)
+        _w(data)
+
+    tr.write = write
+    expected_all = []
     for k, fr in enumerate(frames):
         kind = fr[0]
         if kind in ("ack", "nak"):
@@ -174,9 +183,14 @@ def chk_wire_seq(frames) -> Result:
             r.bad("C03:write-raises", f"frame {k} of {plan}: {e!r}")
             return r
         got = b"".join(d for _, d in tr.writes[n0:])
+        expected_all.append(refash.wire(ref))
         if got != refash.wire(ref):
             r.bad("C03:wire-mismatch:depends-on-earlier-writes", f"frame {k} {fr} of {plan}: impl {got.hex()} ref {refash.wire(ref).hex()}")
             return r
+    later = b"".join(bytes(o) for o in queued)
+    if later != b"".join(expected_all):
+        r.bad("C03:written-object-changed-after-write", f"a transport that keeps the objects it was given and sends them later would put "
+              f"{later.hex()[:80]} on the wire instead of {b''.join(expected_all).hex()[:80]}; plan {plan}")
     return r
 
 
